@@ -281,6 +281,22 @@ impl Client {
 }
 
 /// exchange random payloads both ways at once and compare byte for byte
+/// write-all loop over the vectored entry point: three slices per call, advancing by exactly the count each call reports
+async fn write_all_vectored<W: AsyncWrite + Unpin>(w: &mut W, mut data: &[u8]) -> bool {
+    while !data.is_empty() {
+        let n = data.len();
+        let (x, rest) = data.split_at(n.min(300));
+        let (y, z) = rest.split_at(rest.len() / 2);
+        let bufs = [std::io::IoSlice::new(x), std::io::IoSlice::new(y), std::io::IoSlice::new(z)];
+        match w.write_vectored(&bufs).await {
+            Ok(0) | Err(_) => return false,
+            Ok(k) if k > n => return false,
+            Ok(k) => data = &data[k..],
+        }
+    }
+    true
+}
+
 async fn exchange<A, B>(a: &mut A, b: &mut B, pa: &[u8], pb: &[u8]) -> bool
 where
     A: AsyncRead + AsyncWrite + Unpin,
@@ -288,7 +304,11 @@ where
 {
     let (mut ar, mut aw) = tokio::io::split(a);
     let (mut br, mut bw) = tokio::io::split(b);
-    let w1 = async { aw.write_all(pa).await.is_ok() && aw.flush().await.is_ok() };
+    // a third of the exchanges send the server's payload through the vectored entry point of the accepted stream
+    let vectored = pb.len() % 3 == 0;
+    let w1 = async {
+        (if vectored { write_all_vectored(&mut aw, pa).await } else { aw.write_all(pa).await.is_ok() }) && aw.flush().await.is_ok()
+    };
     let w2 = async { bw.write_all(pb).await.is_ok() && bw.flush().await.is_ok() };
     let r1 = async {
         let mut got = vec![0u8; pb.len()];
